@@ -330,6 +330,8 @@ class H5Driver:
                             events_thrown=thrown(k))
         except Exception as ex:      # any error type counts as a rejection
             raised = ex
+        if last['res'] == 'either':
+            return
         if last['res'] == 'raises' and raised is None:
             raise Divergence('add #%d' % k, 'rejected with an error', 'accepted')
         if last['res'] == 'ok' and raised is not None:
